@@ -13,7 +13,7 @@ from ..common import safe_repr, tname
 from ..runner import Acc, parallel
 from ..terms import E, fp
 
-MAXLEN = {"quick": 3, "thorough": 4}
+MAXLEN = {"quick": 6, "thorough": 8}
 
 
 def arg_class(args):
@@ -105,6 +105,7 @@ def worker(shard, nshards, tier, seed):
 
         seen, ntr = e1.bfs(kind, tier, MAXLEN[tier], on_tr)
         acc.count("states", len(seen))
+        acc.n[f"fixpoint:{kind}"] = int(e1.bfs.last_fixpoint)
         acc.n[f"states:{kind}"] = len(seen)
         some = list(seen.values())[-1]
         acc.sample({"type": kind, "states": len(seen), "transitions": ntr,
@@ -125,6 +126,8 @@ def run(tier, seed):
                 "non-trivial = transitions rejected with DeclarationError",
         "exhaustive": True,
         "states_by_type": {k[7:]: v for k, v in acc.n.items() if k.startswith("states:")},
+        "graph_fully_explored_by_type": {k[9:]: bool(v) for k, v in acc.n.items()
+                                         if k.startswith("fixpoint:")},
         "bounds": {"tier": tier, "max_chain_length": MAXLEN[tier] + 0,
                    "alphabet_sizes": {k: len(e1.alphabet(k, tier)) for k in e1.KINDS}},
     }
